@@ -68,6 +68,7 @@ func isEmptySliceValue(p *Prog, v ssa.Value) bool {
 func runC16(c *Check, a *Analysis) {
 	p := c.P
 	ruleLockBalance(c, a, "R-LOCK-BALANCE", "Client.lock")
+	ruleSnapshotFresh(c, a, "R-SNAPSHOT-FRESH")
 	ls := a.Locks()
 	sc := siteCounter{}
 	c.Rule("R-LOCK", "Client.targets/list/minHeap/last/pos/pending/seq/lastTime are only accessed with Client.lock held", 30)
@@ -766,6 +767,8 @@ func runC17(c *Check, a *Analysis) {
 func runC18(c *Check, a *Analysis) {
 	p := c.P
 	ruleLockBalance(c, a, "R-LOCK-BALANCE", "Client.lock")
+	ruleSnapshotFresh(c, a, "R-SNAPSHOT-FRESH")
+	ruleCompletionChanBuffered(c, a, "R-COMPLETION-CHAN", "waiter")
 	ls := a.Locks()
 	sc := siteCounter{}
 	c.Rule("R-LOCK", "Client.pending and Client.seq are only accessed with Client.lock held", 6)
